@@ -406,7 +406,7 @@ def condition_registration_order(r, ext):
     return []
 
 
-def unhandled_failures(r, ext, xs):
+def unhandled_failures(r, ext, xs, late_only=False):
     """restates C02 "a failed event that no waiter handles makes run()/step() raise that exception at that instant instead of
     continuing silently".  Who handled a failure is decided from what the harness saw, not from the event's `defused` mark:
     a process that was waiting on the event received the exception, or a condition that had the event as operand was still
@@ -440,9 +440,16 @@ def unhandled_failures(r, ext, xs):
             if clab in ext or tc is None or tc >= pe:
                 inert = None; break        # a condition that was (or may have been) undecided: it handles the failure
             inert.append((clab, kind, tc))
-        if inert is None:
+        if inert is None or (late_only and not inert):
             continue
         if not any(l.split(' ')[1] == type(ev._value).__name__ for l in xs):
+            if late_only:
+                clab, kind, tc = inert[0]
+                return [{'what': f'operand e{lab} of {kind} e{clab} (operands {[r.lab(o) for o in r.conds[clab][1]]}) failed with {ev._value!r} and was '
+                                 f'processed at {r.processed[lab][1]} in kernel step {pe}, after the condition had been triggered (kernel step {tc}, by '
+                                 f'another operand): an operand completing after the condition triggered changes nothing - the condition does not '
+                                 f'take care of this failure, no process was waiting on e{lab}, so the run must raise it; it went on'
+                                 f'{" and the event is marked defused" if ev.defused else ""}', 'signature': 'c05-late-failure-swallowed'}]
             why = ('; '.join(f'{kind} e{clab} has it as operand but had already been triggered in kernel step {tc}, before e{lab} was processed '
                              f'in step {pe}' for clab, kind, tc in inert)) or 'no condition has it as operand'
             return [{'what': f'event e{lab} failed with {ev._value!r} and was processed at {r.processed[lab][1]}; no process was waiting on it '
@@ -457,13 +464,21 @@ def termination_events(r, ext):
     for p, name, ok, v, now in r.ended:
         if r.lab(p) in ext:
             continue
-        what = f'returned {v!r}' if ok else f'died with {v!r}'
+        show = lambda x: (f'the event object e{r.lab(x)} (a {type(x).__name__}' + (f', process {r.pnames.get(id(x))}' if id(x) in r.pnames else '') + ')') \
+            if hasattr(x, 'callbacks') and hasattr(x, 'env') else repr(x)
+        what = f'returned {show(v)}' if ok else f'died with {v!r}'
         if not p.triggered:
             return [{'what': f'the generator of process {name} {what} at {now} but its Process event was never triggered (is_alive is '
                              f'still {p.is_alive}): nobody waiting for that process can be resumed', 'signature': 'c02-termination-event'}]
         if not same_outcome(p.ok, p.value, ok, v):
             return [{'what': f'the generator of process {name} {what} at {now} but its Process event carries '
-                             f'{"value" if p.ok else "exception"} {p.value!r}', 'signature': 'c02-termination-event'}]
+                             f'{"value" if p.ok else "exception"} {show(p.value)}', 'signature': 'c02-termination-event'}]
+        # ... and the termination is an occurrence of that very instant: the Process event is processed (its waiters invoked) at
+        # the instant at which the generator ended, whatever the returned value is (a Process / Event object is a value too)
+        q = r.processed.get(r.lab(p))
+        if q is not None and q[1] != now:
+            return [{'what': f'the generator of process {name} {what} at {now} but its Process event was processed (its waiters were resumed) '
+                             f'only at {q[1]}', 'signature': 'c02-termination-event'}]
     return []
 
 
@@ -690,6 +705,11 @@ def oracle_c05(case, lines, runner=None):
             if fail_first is None:
                 fails.append({'what': f'{kind} e{lab} failed although no operand failed', 'signature': 'c05-spurious-fail'}); break
     fails += operand_failure_handled(r, by_label, ext, nested)
+    if case.mode == 'step':
+        # "operands completing after the condition triggered change nothing": an operand that FAILS after the condition was
+        # triggered (in an earlier kernel step) - also in the same instant, before the condition itself is processed - is not
+        # the condition's business any more: unless a process waiting on that operand receives the failure, the run raises it
+        fails += unhandled_failures(r, ext, [l for l in lines if l.startswith('X ')], late_only=True)
     return fails[:3]
 
 
@@ -796,3 +816,51 @@ def oracle_pending_discarded(case, lines, runner=None):
                              f'raised {x!r} at {r.env.now}', 'signature': 'c04-pending-interrupt-error'}]
     return [{'what': f'step() raised {x!r} at {r.env.now}, which is not the exception of any failed event of the program',
              'signature': 'c04-kernel-raised'}]
+
+
+def escaped_user_exceptions(lines):
+    """the X lines of a trace that are not refusals of the kernel (run(until<=now), run(until=event) out of events, step() on an
+    empty schedule) nor a stale stop: exceptions of user code that reached the caller of run()/step()"""
+    out = []
+    for l in lines:
+        if l.startswith('X '):
+            w = l.split(' ')
+            if w[1] in ('EmptySchedule', 'StopSimulation') or (w[1] in ('ValueError', 'RuntimeError') and w[2] in ('s*', '')):
+                continue
+            out.append(l)
+    return out
+
+
+def oracle_driven_run_order(case, lines, runner=None):
+    """restates, for a run driven piecewise (C03: "splitting one run into any sequence of run(until=number), run(until=event) and
+    step() calls ... no process is lost, duplicated or reordered by a stop"), what C01 says of every run: "whatever is scheduled
+    for time t takes effect at exactly t; simulated time never decreases; among occurrences due at the same instant ... urgent
+    first ... in the order in which they were triggered" - judged on the recording environment (public schedule()/step() only)
+    while the plan is executed, in particular on plans that CONTINUE after a piece was cut short by an exception of user code
+    which the caller caught (what an aborted piece leaves behind must not disturb the order of what follows).  Says nothing about
+    WHERE the later pieces stop (DESIGN section 3: outside the split statement after an exception)."""
+    if case.mode != 'plan':
+        return []
+    ri = instrumented(case)
+    if externally_triggered(ri):
+        return []
+    r, env = run_recorded(case)
+    if not env.problems:
+        return []
+    xs = escaped_user_exceptions(r.lines)
+    p = env.problems[0]
+    kind = 'order' if p.startswith('processed') else 'due-time' if 'took effect at' in p else 'time-decreased'
+    if xs:
+        w = xs[0].split(' ')
+        return [{'what': f'plan {case.plan}: a piece of the run was left by {w[1]} (at {kscript_time(w[-1])}), the caller caught it and went on; in the '
+                         f'continued run {p} ({len(env.problems)} such observation(s); {len(env.pending)} occurrences were pending at the end)',
+                 'signature': f'continued-after-exception-{kind}'}]
+    return [{'what': f'plan {case.plan}: in the piecewise run {p}', 'signature': f'split-{kind}'}]
+
+
+def kscript_time(tok):
+    from vlib.util import unbits
+    try:
+        return unbits(int(tok.lstrip('@')))
+    except Exception:
+        return tok
